@@ -11,7 +11,7 @@ symbolic inputs, override constant and threshold.  Compared: outcome, ordered ef
 
 from __future__ import annotations
 
-from pv.corpus.templates import BY_NAME
+from pv.corpus.templates import BY_NAME, generated
 from pv.props.c01 import _fn_holder, _get_fn, _observe, _set_fn
 
 PROPERTY = "C04"
@@ -238,6 +238,14 @@ def cases(tier, seed):
         for nest in ("plain_outer", "plain_mid", "plain_inner"):
             add(t, f, cx, "const", "override", nest)
             add(t, f, cx, "cond", "override", nest)
+    for t in generated(seed, 24 if th else 6):
+        vs = [v for v in t["vars"] if v.startswith("v")][: (4 if th else 2)]
+        for v in vs:
+            add(t["name"], v, "a", "const", "override")
+            add(t["name"], v, "a", "cond", "override")
+            if th:
+                add(t["name"], v, "a", "ctx", "override")
+                add(t["name"], v, "a", "const", "tweaking")
     for t, f, cx in GEN_TARGETS:
         add(t, f, cx, "const", "override", budget=900 if th else 200)
         add(t, f, cx, "cond", "override", budget=900 if th else 200)
